@@ -597,6 +597,11 @@ func writerOf(a, b []string) string {
 func (s *Sim) buildPlan(p []int, batch bool) *commitPlan {
 	m := s.m
 	off := uint64(1 + p[0]%3)
+	if (p[0]/3)%8 == 7 {
+		// a wide flush: one commit spanning more rounds than the transaction-tail (and possibly the online) horizon,
+		// as after a long catch-up; the cut-off then lies INSIDE the range being written (seeded change C47-a)
+		off = uint64(4 + (p[0]/24)%7)
+	}
 	pl := &commitPlan{oldBase: m.round, newBase: m.round + off, batch: batch}
 	if batch {
 		pl.newBase = m.round
